@@ -259,6 +259,9 @@ Definition writes_elsewhere : list (string * write) := [
   ("ensureFields", mkW "numFields" Whole "num(float64(len(p.fields)))" false);
   ("execActions", mkW "reparseCSV" Whole "false" false);
   ("execActions", mkW "scanner" Whole "nil" false);
+  ("execActions", mkW "scanner" Whole "nil" false);
+  ("execActions", mkW "scanner" Whole "nil" false);
+  ("execActions", mkW "scanner" Whole "nil" false);
   ("execute", mkW "stack" Elem "v1" false);
   ("execute", mkW "stack" Elem "v2" false);
   ("execute", mkW "stack" Elem "v0" false);
@@ -419,5 +422,5 @@ Definition field_methods : list (string * string * string) := [
   ("splitOnFieldSepRegex", "savedFieldSepRegex", "FindAllStringIndex");
   ("writeCSV", "csvOutput", "Reset")
 ].
-Definition run_functions : list string := ["array"; "arrayGet"; "arrayIndex"; "augAssignOp"; "boolean"; "callBuiltin"; "callNative"; "checkContext"; "checkContextNow"; "closeAll"; "compileRegex"; "ensureFields"; "execActions"; "execShell"; "execute"; "executeAll"; "floatToInt"; "flushAll"; "flushOutputAndError"; "flushStream"; "flushWriter"; "fromNative"; "getField"; "getFieldByName"; "getInputScannerFile"; "getInputScannerPipe"; "getOutputStream"; "getSpecial"; "getline"; "inputModeString"; "joinFields"; "lenNewline"; "localArray"; "newError"; "newInCmdStream"; "newInFileStream"; "newOutCmdStream"; "newOutFileStream"; "newOutNullStream"; "newScanner"; "nextLine"; "null"; "num"; "numStr"; "outputModeString"; "parseFmtTypes"; "parseInputMode"; "parseOutputMode"; "peekPeekPop"; "peekPop"; "peekSlice"; "peekTop"; "peekTwo"; "pop"; "popSlice"; "popTwo"; "printArgs"; "printErrorf"; "printLine"; "push"; "pushNulls"; "replaceTop"; "replaceTwo"; "setField"; "setFieldNames"; "setFile"; "setLine"; "setSpecial"; "setVarByName"; "split"; "splitOnFieldSepRegex"; "sprintf"; "str"; "sub"; "substrChars"; "substrLengthChars"; "toNative"; "toString"; "validCSVSeparator"; "validateCSVInputConfig"; "validateCSVOutputConfig"; "waitExitCode"; "writeCSV"; "writeOutput"].
+Definition run_functions : list string := ["array"; "arrayGet"; "arrayIndex"; "augAssignOp"; "boolean"; "callBuiltin"; "callNative"; "checkContext"; "checkContextNow"; "closeAll"; "compileRegex"; "ensureFields"; "execActions"; "execShell"; "execute"; "executeAll"; "floatToInt"; "flushAll"; "flushOutputAndError"; "flushStream"; "flushWriter"; "fromNative"; "getField"; "getFieldByName"; "getInputScannerFile"; "getInputScannerPipe"; "getOutputStream"; "getSpecial"; "getline"; "inputModeString"; "joinFields"; "lenNewline"; "localArray"; "newError"; "newInCmdStream"; "newInFileStream"; "newOutCmdStream"; "newOutFileStream"; "newOutNullStream"; "newScanner"; "nextLine"; "null"; "num"; "numStr"; "outputModeString"; "parseFmtTypes"; "parseInputMode"; "parseOutputMode"; "peekPeekPop"; "peekPop"; "peekSlice"; "peekTop"; "peekTwo"; "pop"; "popSlice"; "popTwo"; "printArgs"; "printErrorf"; "printLine"; "push"; "pushNulls"; "replaceTop"; "replaceTwo"; "setField"; "setFieldNames"; "setFile"; "setLine"; "setSpecial"; "setVarByName"; "split"; "splitOnFieldSepRegex"; "sprintf"; "str"; "sub"; "substrChars"; "substrLengthChars"; "toNative"; "toString"; "toUint64"; "validCSVSeparator"; "validateCSVInputConfig"; "validateCSVOutputConfig"; "waitExitCode"; "writeCSV"; "writeOutput"].
 Definition setExecuteConfig_functions : list string := ["array"; "arrayIndex"; "checkNativeFunc"; "ensureFields"; "initNativeFuncs"; "joinFields"; "lenNewline"; "newError"; "num"; "numStr"; "parseInputMode"; "parseOutputMode"; "setArrayValue"; "setExecuteConfig"; "setSpecial"; "setVarByName"; "splitOnFieldSepRegex"; "str"; "toString"; "validCSVSeparator"; "validNativeType"; "validateCSVInputConfig"; "validateCSVOutputConfig"; "writeCSV"; "writeOutput"].
